@@ -156,7 +156,7 @@ class C04(PropCheck):
     id = "C04"
     props_file = "Props/C04.v"
     quick_cases = 260
-    thorough_cases = 4000
+    thorough_cases = 3000
     shard = 20
     assumptions = [
         "devices, registers, layouts and detuning maps are opaque to the model (their own codecs are C17's subject); the oracle compares them on the real objects",
